@@ -262,6 +262,7 @@ func runC04(c *Ctx) {
 	enumerate(c, cfg2)
 
 	c04DomainFnReplacedAfterQuery(c)
+	c04FunctionRegisteredTwice(c)
 	// conditional role managers (not modelled): no stale decision after any change either
 	condFamily(c, 3, "on a conditional role definition a decision went stale: the live enforcer decides differently from a fresh one given the listed rules")
 	n := 100
@@ -321,4 +322,38 @@ m = g(r.sub, p.sub, r.dom) && keyMatch(r.dom, p.dom) && r.obj == p.obj && r.act 
 		}
 		c.Count("domain_fn_replaced_after_query_cases", 1)
 	}
+}
+
+// c04FunctionRegisteredTwice: a custom matcher function registered, used, and registered again under the same
+// name with other behaviour (whatever the library's policy for a second registration is): the enforcer that
+// evaluated a request in between decides like a fresh one given the same registrations in the same order and no
+// request in between.  Implementation only.
+func c04FunctionRegisteredTwice(c *Ctx) {
+	text := strings.Replace(rbacText, "m = g(r.sub, p.sub) && r.obj == p.obj && r.act == p.act", "m = vip(r.sub) && r.obj == p.obj && r.act == p.act", 1)
+	f1 := func(args ...interface{}) (interface{}, error) { return args[0] == "alice", nil }
+	f2 := func(args ...interface{}) (interface{}, error) { return args[0] == "bob", nil }
+	build := func(ask bool) *casbin.Enforcer {
+		e, err := casbin.NewEnforcer(mustModel(text))
+		if err != nil {
+			panic(err)
+		}
+		_, _ = e.AddPolicy("anyone", "data1", "read")
+		e.AddFunction("vip", f1)
+		if ask {
+			_, _ = e.Enforce("alice", "data1", "read")
+			_, _ = e.Enforce("bob", "data1", "read")
+		}
+		e.AddFunction("vip", f2)
+		return e
+	}
+	live, fresh := build(true), build(false)
+	for _, u := range []string{"alice", "bob", "carol"} {
+		a, errA := live.Enforce(u, "data1", "read")
+		b, errB := fresh.Enforce(u, "data1", "read")
+		c.Evals++
+		if a != b || (errA == nil) != (errB == nil) {
+			c.Direct("an earlier Enforce call influences a decision after a matcher function was registered again", fmt.Sprintf("function vip registered, then registered again with other behaviour: Enforce(%s, data1, read): asked-before enforcer %v, fresh enforcer %v", u, a, b))
+		}
+	}
+	c.Count("function_registered_twice_cases", 1)
 }
